@@ -39,3 +39,5 @@ def run(rep, tier):
     kernels.run_scope(rep, B.STATE_FILES)
     key_linearity_obligations(rep)
     B.run_b(rep, morecells.measure_cells(tier, common.seed()), ["C04"], explore=True, tier=tier)
+    extra = [c for c in morecells.three_space_cells(tier, common.seed()) + morecells.stale_cache_cells(tier, common.seed()) if c["action"]["kind"] == "measure"]
+    B.run_b(rep, extra, ["C04"], explore=True, tier=tier)
